@@ -88,7 +88,7 @@ Definition stmt_lru_sound : Prop :=
   cache_sound (lru (option mresult)) (lru_get _) (lru_add _) (lru_reset _) lru_holds.
 
 Definition rr_holds (s : rr (option mresult)) (k : bytes) (v : option mresult) : Prop :=
-  c_find _ k (rr_items _ s) = Some v.
+  In (k, v) (rr_items _ s).
 Definition stmt_rr_sound : Prop := forall choose,
   cache_sound (rr (option mresult)) (rr_get _) (rr_add _ choose) (rr_reset _) rr_holds.
 
